@@ -714,3 +714,38 @@ def rule_no_rewrap_of_existing(check, rule):
                         check.holds(rule, site_of(fi, e.node), 'preevaluated(%s): a value supplied by the caller, not read from an existing parameter'
                                     % show(arg)[:50], key=key)
     check.floor(rule, 'calls of UpgradedAnnotation.preevaluated', n_calls, 2)
+
+
+def rule_annotation_pairing_sites(check, rule):
+    """C11.R2c: every construction site in the package -- `UpgradedParameter(...)`, `<param>.replace(...)`, `cls(...)` -- that
+    passes `annotation=<something read from Z.annotation>` must pass `upgraded_annotation=` read from the same Z
+    (`Z.upgraded_annotation`, or `UpgradedAnnotation.upgrade(Z.annotation, ...)`).  Without it the new parameter gets the
+    class default `EmptyAnnotation`: it prints the annotation but `evaluated()` / `source_value()` lose it."""
+    repo = check.repo
+    n = 0
+    for fi in repo.all_funcs():
+        if fi.module.name not in ('_signatures', 'modifiers', '_autoforwards', 'specifiers', 'wrappers', '_util'):
+            continue
+        for c in [x for x in ast.walk(fi.node) if isinstance(x, ast.Call)]:
+            kws = dict((k.arg, k.value) for k in c.keywords if k.arg)
+            for raw, up in (('annotation', 'upgraded_annotation'), ('return_annotation', 'upgraded_return_annotation')):
+                if raw not in kws:
+                    continue
+                srcs = [norm(a.value) for a in ast.walk(kws[raw]) if isinstance(a, ast.Attribute) and a.attr == raw]
+                if not srcs:
+                    continue        # a value supplied by the caller: C11.R4's business
+                n += 1
+                key = '%s|pairing|%s|%s' % (fi.key, raw, norm(c.func)[:40])
+                upv = kws.get(up)
+                ok = upv is not None and any(
+                    (isinstance(a, ast.Attribute) and a.attr in (up, raw) and norm(a.value) in srcs) for a in ast.walk(upv))
+                if ok:
+                    check.holds(rule, site_of(fi, c), '%s= and %s= are taken from the same object (%s)' % (raw, up, srcs[0]), key=key)
+                elif up in kws and isinstance(kws[up], ast.Name):
+                    # a local computed on the same branch: the path rules (C10.R1 / C11.R2) decide that one
+                    check.holds(rule, site_of(fi, c), '%s= is a local decided next to %s=' % (up, raw), key=key, nontrivial=False)
+                else:
+                    check.violation(rule, site_of(fi, c), '%s(...) passes %s=%s but no %s from the same object: the new parameter carries the '
+                                    'annotation text without its evaluation context (EmptyAnnotation)' % (norm(c.func)[:40], raw, norm(kws[raw])[:40], up),
+                                    key=key, witness='partial(f, x=1) for def f(x: T): evaluated() drops the annotation of x')
+    check.floor(rule, 'construction sites copying an annotation', n, 1)
